@@ -15,7 +15,7 @@ import Mfi.Driver.IxD
 import Mfi.Driver.VenueD
 open Mfi.Driver
 
-def handlers : List (String → List Int → Option String) := [fxOp, panicOp, irOp, igOp, bankOp, tokOp, gateOp, authOp, adminOp, acctOp, txOp, riskOp, liqOp, xferOp, ixOp, liqIxOp, bkrIxOp, closeBankOp, venueOp, venueIxOp]
+def handlers : List (String → List Int → Option String) := [fxOp, panicOp, irOp, igOp, bankOp, tokOp, gateOp, authOp, adminOp, acctOp, txOp, riskOp, liqOp, xferOp, ixOp, liqIxOp, bkrIxOp, closeBankOp, venueOp, venueIxOp, venueV4Op]
 
 def stepLine (line : String) : String :=
   match line.trimAscii.toString.splitOn " " with
